@@ -27,14 +27,14 @@ Theorem C02_one_record_per_transaction : forall g s objs ents assoc T,
   d_tx (s_db (flush g s objs ents assoc)) = d_tx (s_db s).
 Proof. exact flush_keeps_transaction. Qed.
 
-(* a flush without a versioned modification creates no record; otherwise exactly one, with an id
-   larger than every id present before *)
+(* a flush in which no versioned object looks modified and no versioned entity is written (tracked)
+   creates no record; otherwise exactly one, with an id larger than every id present before *)
 Theorem C02_record_iff_modified : forall g s objs ents assoc,
   g_versioning g = true -> u_cur (s_uow s) = None ->
   let s' := flush g s objs ents assoc in
-  (existsb (obj_modified g) objs = false ->
+  (existsb (obj_modified g) objs || existsb (tracked g) ents = false ->
      d_tx (s_db s') = d_tx (s_db s) /\ u_cur (s_uow s') = None) /\
-  (existsb (obj_modified g) objs = true ->
+  (existsb (obj_modified g) objs || existsb (tracked g) ents = true ->
      exists T, d_tx (s_db s') = d_tx (s_db s) ++ [T] /\ u_cur (s_uow s') = Some T /\
                forall t, In t (d_tx (s_db s)) -> t < T).
 Proof. exact flush_creates_at_most_one. Qed.
